@@ -290,10 +290,11 @@ reg("C14",
              2: "http format: a target returned earlier changed when a later one was decoded", 3: "http format: the default headers were modified",
              4: "json format: returned targets differ from the described ones", 5: "json format: an earlier target changed", 6: "json format: the default headers were modified",
              7: "http format: eager reading (ReadAllTargets, then the static targeter the attack command uses) hands out other targets, or in another order, than call-by-call reading", 8: "json format: eager reading (ReadAllTargets, then the static targeter) hands out other targets, or in another order, than call-by-call reading"},
+    diffs={10: "http format: the model's results differ from the targeter's", 20: "json format: the model's results differ from the targeter's", 21: "json format: the model's JSON reader and encoding/json disagree on the meaning of a line", 22: "json format: the model's target encoder writes other bytes than the real encoder"},
     assumptions=["url.ParseRequestURI: reference predicate url_ok; os.ReadFile: finite map; bufio.Scanner token limit (64 KiB) not modelled",
-                 "the generated easyjson object decoder is an oracle: each JSON line's meaning is supplied by encoding/json (independent reader)",
+                 "the generated easyjson object decoder is modelled (Model/JsonTarget.v over the JSON reader of Model/Json.v) and, on every run, compared line by line with encoding/json as an independent reader (diff 21); the model's encoder is compared byte for byte with the real encoder's lines wherever the order of header members is determined, i.e. at most one key (diff 22)",
                  "strings.TrimSpace restricted to ASCII white space"],
-    level_text="http_decodes_described / http_decodes_described_bytes: for EVERY well-formed file (lines classified by what TrimSpace leaves of them: blank, comment, request, header, @body; comments and blank lines in every legal position; any indentation), every default body/header set and every file map, the model of the http targeter (bufio.ScanLines, the peeking scanner with its empty-string sentinel, the request/header/body state machine, default merge) returns exactly the described targets in order and then ErrNoTargets - proved in Coq by induction over the file; json_defaults_merge for the JSON format; comment_after_request_refuted (the pinned peeking code). Independence of earlier targets and defaults is structural in the model (values) and is decided on the real targeters by re-inspection in the tie.",
+    level_text="http_decodes_described / http_decodes_described_bytes: for EVERY well-formed file (lines classified by what TrimSpace leaves of them: blank, comment, request, header, @body; comments and blank lines in every legal position; any indentation), every default body/header set and every file map, the model of the http targeter (bufio.ScanLines, the peeking scanner with its empty-string sentinel, the request/header/body state machine, default merge) returns exactly the described targets in order and then ErrNoTargets - proved in Coq by induction over the file; json_target_roundtrip (every target in the domain written by the JSON target encoder reads back as the same target), json_encoder_writes_lines, json_targets_stream (a stream of encoded targets yields exactly them, defaults merged, then exhaustion) and json_defaults_merge for the JSON format; comment_after_request_refuted (the pinned peeking code). Independence of earlier targets and defaults is structural in the model (values) and is decided on the real targeters by re-inspection in the tie.",
     technique="Coq proof by induction over well-formed files on a model of the parser state machine; differential correspondence with aliasing re-inspection",
     timeout={"quick": 600, "thorough": 3000})
 
